@@ -14,7 +14,7 @@ for sid in ids:
     if r.returncode != 0:
         print(sid, 'PATCH-DOES-NOT-APPLY', r.stderr.strip()[:100]); continue
     try:
-        p = subprocess.run(['/verif/bin/govc','check',prop],cwd='/verif',capture_output=True,text=True,timeout=1800)
+        p = subprocess.run(['/verif/bin/govc','check',prop],cwd='/verif',capture_output=True,text=True,timeout=1800,env=dict(os.environ,VERIF_SELFTEST='1'))
         out = p.stdout + p.stderr
     finally:
         subprocess.run(['git','-C','/repo','checkout','--','.'])
